@@ -187,7 +187,13 @@ impl<'a, 'tcx> H<'a, 'tcx> {
     fn expr(&self, e: &Expr<'tcx>) -> J {
         let tcx = self.tcx;
         let mut o: Vec<(&'static str, J)> = match &e.kind {
-            ExprKind::ConstBlock(_) => vec![("k", J::s("constblock"))],
+            ExprKind::ConstBlock(cb) => {
+                // inline const: its body has its own typeck results
+                let body = tcx.hir_body(cb.body);
+                let tr2 = tcx.typeck_body(cb.body);
+                let h2 = H { tcx, tr: tr2 };
+                vec![("k", J::s("constblock")), ("e", h2.expr(body.value))]
+            }
             ExprKind::Array(xs) => vec![("k", J::s("array")), ("a", J::A(xs.iter().map(|x| self.expr(x)).collect()))],
             ExprKind::Call(f, args) => {
                 let mut o = vec![
